@@ -325,6 +325,16 @@ func commissionFromPool(swapChecker swap.EditableChecker, coin CalculateCoin, ba
 			Info: EncodeError(code.NewInsufficientLiquidity(coin.ID().String(), coms.String(), baseCoin.ID().String(), commissionInBaseCoin.String(), reserve0.String(), reserve1.String())),
 		}
 	}
+	// order prices are kept as floats: selling the calculated amount may return a few units less than
+	// the commission, and the swap in DeliverTx would panic on that
+	if out, _ := swapChecker.CalculateBuyForSellWithOrders(coms); out == nil || out.Cmp(commissionInBaseCoin) == -1 {
+		reserve0, reserve1 := swapChecker.Reserves()
+		return nil, &Response{
+			Code: code.InsufficientLiquidity,
+			Log:  fmt.Sprintf("swap pool has reserves %s %s and %d %s, selling %s %s does not cover the commission %s %s", reserve0, coin.GetFullSymbol(), reserve1, baseCoin.GetFullSymbol(), coms, coin.GetFullSymbol(), commissionInBaseCoin, baseCoin.GetFullSymbol()),
+			Info: EncodeError(code.NewInsufficientLiquidity(coin.ID().String(), coms.String(), baseCoin.ID().String(), commissionInBaseCoin.String(), reserve0.String(), reserve1.String())),
+		}
+	}
 	return coms, nil
 }
 
